@@ -437,12 +437,53 @@ impl Gen {
         }
         p
     }
+    /// the "keep" driver (link mode for chains of returned closures): at every level of the chain the
+    /// SAME closure is activated twice and both returned closures are kept (`g40+2j`, `g41+2j`);
+    /// the first is invoked, then the second, then the first again — so a binding created by the
+    /// earlier activation is observed after the later activation of the same closure has run
+    /// ("separate activations get separate locations", also for levels without formals whose only
+    /// bindings are internal definitions) — and the chain goes on from the first.
+    fn program_keep(&mut self) -> Vec<Top> {
+        let mut p = vec![];
+        for x in self.names.clone() {
+            p.push(Top::Define(x, Ex::Fresh));
+        }
+        let l1 = self.level(0);
+        p.push(Top::Define(G0, l1));
+        let d = self.levels.len();
+        let mut j = 0;
+        while j + 1 < d && self.levels[j].mode == Mode::Return {
+            let h1 = G0 + 30 + 2 * j as u32;
+            let h2 = h1 + 1;
+            for h in [h1, h2] {
+                let r = Ex::Ref(self.s(), G0 + j as u32);
+                let a = self.args(j);
+                p.push(Top::Define(h, Ex::Call(Box::new(r), a)));
+            }
+            for h in [h1, h2, h1] {
+                let r = Ex::Ref(self.s(), h);
+                let e = self.invoke(j + 1, r, false);
+                p.push(Top::Expr(e));
+            }
+            let rd = self.reads();
+            p.push(Top::Expr(Ex::Seq(rd)));
+            let r = Ex::Ref(self.s(), h1);
+            p.push(Top::Define(G0 + j as u32 + 1, r));
+            j += 1;
+        }
+        p
+    }
 }
 
 /// the exhaustive family: depth d, which of a b c every level binds (bits), binder-kind scheme
 /// ks ∈ 0..3 (level i, name j gets kind (i+j+ks) mod 3 of parameter / rest / internal define, a
 /// second rest falls back to parameter), uniform link mode, placement p ∈ 0..4
 fn skeleton(d: usize, bits: u32, ks: usize, mode: usize, p: usize) -> Vec<Top> {
+    let mut g = Gen { site: 0, names: vec![0, 1, 2], levels: skeleton_levels(d, bits, ks, mode, p) };
+    g.program()
+}
+
+fn skeleton_levels(d: usize, bits: u32, ks: usize, mode: usize, p: usize) -> Vec<Level> {
     let mut levels = vec![];
     for i in 0..d {
         let mut binds = vec![];
@@ -469,8 +510,7 @@ fn skeleton(d: usize, bits: u32, ks: usize, mode: usize, p: usize) -> Vec<Top> {
             wrap: (ks + i + p) % 2 == 1,
         });
     }
-    let mut g = Gen { site: 0, names: vec![0, 1, 2], levels };
-    g.program()
+    levels
 }
 
 fn exhaustive_count(d: usize) -> u64 {
@@ -486,6 +526,22 @@ fn exhaustive_nth(d: usize, idx: u64) -> Vec<Top> {
     let ks = (n % 3) as usize;
     n /= 3;
     skeleton(d, n as u32, ks, mode, p)
+}
+
+/// the keep family: the skeletons of the exhaustive family whose levels all return their inner
+/// closure (bits × kind scheme × placement), driven by `Gen::program_keep`
+fn keep_count(d: usize) -> u64 {
+    (1u64 << (3 * d)) * 3 * 4
+}
+
+fn keep_nth(d: usize, idx: u64) -> Vec<Top> {
+    let mut n = idx;
+    let p = (n % 4) as usize;
+    n /= 4;
+    let ks = (n % 3) as usize;
+    n /= 3;
+    let mut g = Gen { site: 0, names: vec![0, 1, 2], levels: skeleton_levels(d, n as u32, ks, 2, p) };
+    g.program_keep()
 }
 
 /// the full product of binder kinds: every level binds each of a b c as fixed parameter, rest
@@ -892,6 +948,28 @@ fn main() {
             }
             eprintln!("kinds depth {} shard {}/{}: {} of {} skeletons", d, shard % nshards, nshards, k, total);
         }
+        // keep <depth> <shard> <nshards> [what]: chains of returned closures, every closure of the chain
+        // activated twice, both results kept, first / second / first invoked
+        "keep" => {
+            let d: usize = args[2].parse().unwrap();
+            let shard: u64 = args[3].parse().unwrap();
+            let nshards: u64 = args[4].parse().unwrap();
+            let what = args.get(5).map(|s| s.as_str()).unwrap_or("both");
+            let mut vm = fresh_vm();
+            let total = keep_count(d);
+            let mut idx = shard % nshards;
+            let mut k = 0u64;
+            while idx < total {
+                if k % 256 == 255 {
+                    vm = fresh_vm();
+                }
+                let p = keep_nth(d, idx);
+                emit(&mut out, &mut vm, &p, what);
+                idx += nshards;
+                k += 1;
+            }
+            eprintln!("keep depth {} shard {}/{}: {} of {} skeletons", d, shard % nshards, nshards, k, total);
+        }
         // eval <form>…: evaluate forms after the prologue in a fresh VM (for replays and probes)
         "eval" => {
             let mut vm = fresh_vm();
@@ -926,6 +1004,17 @@ fn main() {
                 println!("{}", top_scheme(&t));
             }
         }
+        // showkeep <depth> <idx>: the Scheme text of one skeleton of the keep family
+        "showkeep" => {
+            let d: usize = args[2].parse().unwrap();
+            let idx: u64 = args[3].parse().unwrap();
+            for f in PROLOGUE {
+                println!("{}", f);
+            }
+            for t in keep_nth(d, idx) {
+                println!("{}", top_scheme(&t));
+            }
+        }
         // file <path>: corpus of programs in wire form is not parsed back; corpus files hold
         // `depth idx` pairs, one per line
         "corpus" => {
@@ -943,7 +1032,7 @@ fn main() {
             }
         }
         _ => {
-            eprintln!("usage: scope exh D SHARD NSHARDS [run|envmap|both] | kexh D VARIANTS SHARD NSHARDS [what] | rand N [what] [salt] | show D IDX | eval FORM… | corpus FILE");
+            eprintln!("usage: scope exh D SHARD NSHARDS [run|envmap|both] | keep D SHARD NSHARDS [what] | kexh D VARIANTS SHARD NSHARDS [what] | rand N [what] [salt] | show D IDX | eval FORM… | corpus FILE");
             std::process::exit(2);
         }
     }
